@@ -62,11 +62,16 @@ class PIter:
     def __init__(self, items):
         self.items = list(items); self.pos = 0; self.ops = []
 
-    def pull(self, it):
-        while self.pos < len(self.items):
+    def pull_src(self, it):
+        if self.pos < len(self.items):
             x = self.items[self.pos]; self.pos += 1
-            if isinstance(x, tuple) and len(x) == 2 and x[0] == "cond":      # (cond, presence, value): symbolic membership
-                pass
+            return True, x
+        return False, None
+
+    def pull(self, it):
+        while True:
+            ok, x = self.pull_src(it)
+            if not ok: break
             ok = True
             for op in self.ops:
                 k = op[0]
@@ -77,10 +82,43 @@ class PIter:
                 elif k == "enumerate":
                     x = Agg("tuple", "()", [z3.BitVecVal(op[1][0], 64), x]); op[1][0] += 1
                 elif k == "cloned": x = clone(val(x))
+                elif k == "filter_map":
+                    o = val(it.call_closure(op[1], [x]))
+                    if o.variant == 0: ok = False; break
+                    x = o.fields[0]
+                elif k == "take_while":
+                    if op[2][0] or not truth(it, it.call_closure(op[1], [ValRef(x)])):
+                        op[2][0] = True; return False, None
+                elif k == "skip_while":
+                    if not op[2][0]:
+                        if truth(it, it.call_closure(op[1], [ValRef(x)])): ok = False; break
+                        op[2][0] = True
+                elif k == "inspect": it.call_closure(op[1], [ValRef(x)])
                 else: raise Unsupported("iterator adaptor " + k)
             if ok:
                 return True, x
         return False, None
+
+
+class PChain(PIter):
+    """a.chain(b) where either side already carries adaptors: pulls lazily from a, then from b."""
+    def __init__(self, a, b):
+        self.a, self.b, self.ops = a, b, []
+
+    def pull_src(self, it):
+        ok, x = self.a.pull(it)
+        if ok: return True, x
+        return self.b.pull(it)
+
+    def __getattr__(self, name):
+        if name in ("items", "pos"): raise Unsupported("positional access to a chained lazy iterator")
+        raise AttributeError(name)
+
+
+def _attach_pull():
+    from . import containers as K
+    K.IterVal.pull = PIter.pull; K.IterVal.pull_src = PIter.pull_src          # the byte/Vec-level iterator takes the same lazy adaptor chain
+_attach_pull()
 
 
 def truth(it, c):
@@ -305,7 +343,7 @@ def m_vec_retain(it, c, a):
 def m_vec_extend(it, c, a):
     v = val(a[0]); o = val(a[1])
     if isinstance(o, PVec): v.items += list(o.items)
-    elif isinstance(o, PIter):
+    elif hasattr(o, "pull"):
         while True:
             ok, x = o.pull(it)
             if not ok: break
@@ -382,8 +420,8 @@ def m_chain(it, c, a):
     r, o = val(a[0]), val(a[1])
     conv = lambda x: PIter(x.items[x.pos:]) if (hasattr(x, "items") and hasattr(x, "pos") and not hasattr(x, "pull")) else x
     r, o = conv(r), conv(o)
-    if r.ops or (isinstance(o, PIter) and o.ops): raise Unsupported("chain after adaptors")
     if not isinstance(o, PIter): o = m_into_iter_generic(it, "<&x as IntoIterator>::into_iter", [o])
+    if isinstance(r, PChain) or isinstance(o, PChain) or r.ops or o.ops: return PChain(r, o)
     return PIter(r.items[r.pos:] + o.items[o.pos:])
 
 
@@ -447,7 +485,7 @@ def m_into_iter_generic(it, c, a):
 
 def m_next(it, c, a):
     r = val(a[0])
-    if hasattr(r, "items") and hasattr(r, "pos") and not hasattr(r, "pull"):      # containers.IterVal
+    if hasattr(r, "items") and hasattr(r, "pos") and not getattr(r, "ops", None) and not isinstance(r, PIter):      # containers.IterVal
         if r.pos < len(r.items):
             x = r.items[r.pos]; r.pos += 1
             return some(x)
@@ -467,6 +505,7 @@ def adaptor(kind):
         r = val(a[0])
         if kind == "enumerate": r.ops.append(["enumerate", [0]])
         elif kind in ("cloned", "copied"): r.ops.append(["cloned"])
+        elif kind in ("take_while", "skip_while"): r.ops.append([kind, a[1], [False]])
         else: r.ops.append([kind, a[1]])
         return r
     return f
@@ -550,6 +589,52 @@ def m_position(it, c, a):
         i += 1
 
 
+def m_rposition(it, c, a):
+    r = val(a[0])
+    if r.ops: raise Unsupported("rposition after adaptors")
+    rest = r.items[r.pos:]
+    for i in range(len(rest) - 1, -1, -1):
+        if truth(it, it.call_closure(a[1], [rest[i]])): return some(z3.BitVecVal(i, 64))
+    return none()
+
+
+def m_find_map(it, c, a):
+    r = val(a[0])
+    while True:
+        ok, x = r.pull(it)
+        if not ok: return none()
+        o = val(it.call_closure(a[1], [x]))
+        if o.variant == 1: return o
+
+
+def m_try_for_each(it, c, a):
+    """Iterator::try_for_each: stops at the first None / Err / Break"""
+    r = val(a[0]); last = None
+    while True:
+        ok, x = r.pull(it)
+        if not ok: break
+        o = val(it.call_closure(a[1], [x]))
+        if not (isinstance(o, Agg) and o.name in ("Option", "Result", "ControlFlow")):
+            raise Unsupported(f"try_for_each closure result {o!r}")
+        last = o
+        if (o.name == "Option" and o.variant == 0) or (o.name in ("Result", "ControlFlow") and o.variant != 0):
+            return o
+    tail = c.split("try_for_each", 1)[1]
+    kind = last.name if last is not None else ("Result" if "Result<" in tail else ("ControlFlow" if "ControlFlow<" in tail else "Option"))
+    if kind == "Option": return some(None)
+    return Agg("enum", kind, [None], 0)
+
+
+def m_entry_or_insert(it, c, a):
+    e = val(a[0])
+    if not (isinstance(e, Agg) and e.name == "PEntry"): raise Unsupported(f"or_insert on {e!r}")
+    m, k = e.fields
+    if not (k in m.d and present(it, m.d[k][0])):
+        v = it.call_closure(a[1], []) if "or_insert_with" in c else val(a[1])
+        m.d[k] = [TRUE, ValRef(v)]
+    return m.d[k][1]
+
+
 def m_collect(it, c, a):
     r = val(a[0]); out = []
     while True:
@@ -574,7 +659,7 @@ def m_set_extend(it, c, a):
     s = val(a[0]); o = val(a[1])
     if isinstance(o, PSet): ks = set_live(it, o)
     elif isinstance(o, PVec): ks = [pykey(x) for x in o.items]
-    elif isinstance(o, PIter):
+    elif hasattr(o, "pull"):
         ks = []
         while True:
             ok, x = o.pull(it)
@@ -656,8 +741,8 @@ MODELS = [
     (R(r"slice::<impl \[.*\]>::iter$|^Vec::<.*>::iter$"), m_vec_iter),
     (R(r"slice::<impl \[.*\]>::contains$|^VecDeque::<.*>::contains$"), m_vec_contains),
     (R(r"slice::<impl \[.*\]>::reverse$"), m_vec_reverse),
-    (R(r"slice::<impl \[.*\]>::last$|^Vec::<.*>::last$"), m_vec_last),
-    (R(r"slice::<impl \[.*\]>::first$|^Vec::<.*>::first$"), m_vec_first),
+    (R(r"slice::<impl \[.*\]>::last(_mut)?$|^Vec::<.*>::last(_mut)?$"), m_vec_last),
+    (R(r"slice::<impl \[.*\]>::first(_mut)?$|^Vec::<.*>::first(_mut)?$"), m_vec_first),
     (R(r"slice::<impl \[.*\]>::get::<usize>$|^Vec::<.*>::get$"), m_vec_get),
     (R(r"slice::<impl \[.*\]>::len$"), m_vec_len),
     (R(r"slice::<impl \[.*\]>::is_empty$"), m_vec_is_empty),
@@ -696,6 +781,14 @@ MODELS = [
     (R(r" as Iterator>::next$"), m_next),
     (R(r" as Iterator>::map::<"), adaptor("map")),
     (R(r" as Iterator>::filter::<"), adaptor("filter")),
+    (R(r" as Iterator>::filter_map::<"), adaptor("filter_map")),
+    (R(r" as Iterator>::take_while::<"), adaptor("take_while")),
+    (R(r" as Iterator>::skip_while::<"), adaptor("skip_while")),
+    (R(r" as Iterator>::inspect::<"), adaptor("inspect")),
+    (R(r" as Iterator>::rposition::<"), m_rposition),
+    (R(r" as Iterator>::find_map::<"), m_find_map),
+    (R(r" as Iterator>::try_for_each::<"), m_try_for_each),
+    (R(r"Entry::<.*>::or_insert(_with::<.*)?$"), m_entry_or_insert),
     (R(r" as Iterator>::enumerate$"), adaptor("enumerate")),
     (R(r" as Iterator>::(cloned|copied)(::<.*>)?$"), adaptor("cloned")),
     (R(r" as Iterator>::skip$"), m_skip),
